@@ -311,7 +311,9 @@ def _amp(cfg, layout, g, roots_):
       r = np.asarray(roots_[k], np.float64)
       if r.shape[0] != r.shape[1] and cr:
         dn = ref.dense_from_packed(r, cr)
-        nr = 1.0 if dn is None else float(np.linalg.norm(dn, 2))
+        # the packed application path (project, complement, rescale) has about
+        # four times the rounding of a single matrix product
+        nr = 1.0 if dn is None else 4.0 * float(np.linalg.norm(dn, 2))
       else:
         nr = float(np.linalg.norm(r, 2)) if r.size else 1.0
       a *= max(nr, 1e-300)
